@@ -1245,7 +1245,7 @@ static WUR iwrc _kvblk_updatev(
   sp = wp;
   IW_READVNUMBUF(wp, len, sz);
   wp += sz;
-  if (ukey && (len != ukey->size)) {
+  if (ukey && (len != ukey->size + ((db->dbflg & IWDB_COMPOUND_KEYS) ? IW_VNUMSIZE(ukey->compound) : 0))) {
     rc = IWKV_ERROR_CORRUPTED;
     iwlog_ecode_error3(rc);
     goto finish;
